@@ -154,6 +154,52 @@ func checkC12(c *Ctx) {
 		}
 	}
 
+	// saving has-one / has-many targets upserts every foreign-key column of the relation (for polymorphic
+	// relations that includes the type column): the list handed to saveAssociations gets one append per reference
+	ru := c.Rule("C12.upsert-columns", "association saves list the foreign key of every reference as conflict-update column", 3)
+	for _, fac := range []string{"SaveAfterAssociations"} {
+		fsrc := p.FuncDecl(pkgCallbacks, fac)
+		for _, f := range p.AllLits(fsrc) {
+			if f.Parent != fsrc {
+				continue
+			}
+			info := f.Pkg.TypesInfo
+			parents := parentMap(f.Body)
+			ast.Inspect(f.Body, func(n ast.Node) bool {
+				as, ok := n.(*ast.AssignStmt)
+				if !ok || len(as.Lhs) != 1 || len(as.Rhs) != 1 {
+					return true
+				}
+				ce, ok := unparen(as.Rhs[0]).(*ast.CallExpr)
+				if !ok {
+					return true
+				}
+				fid, _ := ce.Fun.(*ast.Ident)
+				if fid == nil || fid.Name != "append" || len(ce.Args) != 2 || canon(info, ce.Args[0]) != canon(info, as.Lhs[0]) {
+					return true
+				}
+				if !strings.HasSuffix(canon(info, ce.Args[1]), ".ForeignKey.DBName") {
+					return true
+				}
+				// is the accumulated list passed to saveAssociations?
+				id, _ := as.Lhs[0].(*ast.Ident)
+				if id == nil {
+					return true
+				}
+				c.Touch(f)
+				// the append must sit directly in the body of a range over <rel>.References
+				direct := false
+				if blk, ok := parents[as].(*ast.BlockStmt); ok {
+					if rs, ok := parents[blk].(*ast.RangeStmt); ok && strings.HasSuffix(canon(info, rs.X), ".References") {
+						direct = true
+					}
+				}
+				ru.Check(direct, f.Name(), "foreign key of every reference listed: "+id.Name, as.Pos(), "one unconditional append per reference", "the conflict-update column list of an association save skips some references: re-linking an existing target leaves part of its foreign key (e.g. the polymorphic type column) pointing at the old owner")
+				return true
+			})
+		}
+	}
+
 	r.Check(nRecord >= 3 && nLink >= 2 && nDetach >= 3, "gorm.Association", "census", assocT.Obj().Pos(), itoa(nRecord)+" record deletions, "+itoa(nLink)+" link deletions, "+itoa(nDetach)+" detaching updates", "association mode lost its record/link deletion sites; rule lost its anchors")
 }
 
